@@ -28,8 +28,9 @@ import (
 
 // draw is one value to be returned by a sampler whose bound has `bits` bits.
 type draw struct {
-	v    *big.Int
-	bits int
+	v     *big.Int
+	bits  int
+	bound *big.Int // the sampler's bound, when known: a candidate equal to it must be rejected and redrawn
 }
 
 // streamFor builds the bytes consumed by successive MustGetRandomInt(rand, bits) calls.
@@ -38,6 +39,11 @@ func streamFor(ds ...draw) io.Reader {
 	var buf []byte
 	for _, d := range ds {
 		k := (d.bits + 7) / 8
+		// first a candidate that the rejection loop must discard (the bound itself: it passes crypto/rand.Int's own
+		// range test whenever bound < 2^bits - 1, and is then refused by `try < bound` / the unit test), then the value
+		if d.bound != nil && d.bound.BitLen() == d.bits && d.bound.Cmp(add(pow2(uint(d.bits)), -1)) < 0 {
+			buf = append(buf, beN(d.bound, k)...)
+		}
 		buf = append(buf, beN(d.v, k)...)
 	}
 	return &prefixReader{prefix: buf, rest: failReader{}}
@@ -47,7 +53,7 @@ type failReader struct{}
 
 func (failReader) Read(p []byte) (int, error) { return 0, io.ErrUnexpectedEOF }
 
-func d(v, bound *big.Int) draw { return draw{v, bound.BitLen()} }
+func d(v, bound *big.Int) draw { return draw{v, bound.BitLen(), bound} }
 
 // safely runs f and converts a sampler panic on an exhausted stream into the atom StreamExhausted
 func withStream(f func() val.V) (out val.V) {
